@@ -67,7 +67,7 @@ def init(ctx):
 def gen_cases(ctx):
     for inp in ctx.corpus():
         yield inp
-    n = ctx.n(300, 3000)
+    n = ctx.n(600, 4000)
     for i in range(n):
         rng = ctx.rng("drift", i)
         mv = linkcommon.gen_movie(rng, thorough=ctx.thorough, plant_history=True)
@@ -77,6 +77,8 @@ def gen_cases(ctx):
         mv["strategy"] = rng.choice(["recursive", "nonrecursive", "numba", None])
         mv["tstep"] = rng.choice([1, 1, 2])
         mag = rng.choice([0, 1, 2, 50, 1000])
+        if mv.get("fine"):
+            mag = rng.choice([50, 1000, 1000])    # near-range pairs at LARGE coordinates
         mv["vel"] = [rng.randint(-mag, mag) * mv.get("fine", 1) for _ in range(mv["dim"])]
         yield mv
     m = ctx.n(80, 1000)
